@@ -6,7 +6,8 @@
 From Coq Require Import ZArith List Arith.
 From NTT Require Import Functors ScalarOps Simd SimdKernels Layer Expr ExprExec.
 From NTT Require VecSem GenVecEq.
-From NTT.gen Require GenVec.
+From NTT.gen Require GenVec GenLoop.
+From NTT Require Structural FlatTable Tables GenLoopSimd.
 Import ListNotations.
 Local Open Scope Z_scope.
 
@@ -165,3 +166,25 @@ Theorem C05_source_avx2_shoup16 : forall p r0 r1 r2 r3 r4 r5 r6 r7 x0 x1 x2 x3 x
      m (lane_muladdshoup16 p r4 x4 y4 z4) (lane_muladdshoup16 p r5 x5 y5 z5); m (lane_muladdshoup16 p r6 x6 y6 z6) (lane_muladdshoup16 p r7 x7 y7 z7)].
 Proof. exact GenVecEq.avx2_shoup16. Qed.
 Print Assumptions C05_source_avx2_shoup16.
+(* THE LOOPS OF ALL THREE BUILDS, translated from the source on every run (tools/cxxloop2coq.py -> gen/GenLoop.v): poly::core::ntt with
+   ntt_loop<serial>::run, ntt_loop_sse_unrolled::run (J-1 layers four/eight lanes at a time through the SSE butterfly, then the scalar
+   layer) and ntt_loop_avx2_unrolled::run (eight/sixteen lanes through the AVX2 butterfly, an SSE register for the half-filled rows of
+   16-bit limbs, then the scalar layer) -- every index expression, loop bound, pointer advance, bounds-checked and alignment-checked
+   access -- all return the SAME array: Structural.ntt_core on the library's flat tables.  Every degree 8..2^30, every limb type. *)
+Theorem C05_source_loops_all_builds : forall k p om x0, (3 <= k <= 30)%nat -> 1 < p -> length x0 = (2 ^ k)%nat ->
+  let W := FlatTable.flat p k om in let tws := fun lvl => List.nth lvl (Tables.prep p k om) nil in
+  let out w := Some ((Structural.ntt_core w p k tws x0, Z.of_nat (2 ^ k), Z.of_nat (FlatTable.off k (k - 2)), Z.of_nat (FlatTable.off k (k - 2))), true) in
+  (p < 2 ^ 14 -> List.Forall (fun v => 0 <= v < 2 ^ 16) x0 ->
+     GenLoop.gen_ntt_serial_u16 (Z.of_nat (2 ^ k)) x0 0 W 0 (List.map (fun v => (v * 2 ^ 16) / p) W) 0 p = out 16 /\
+     GenLoop.gen_ntt_sse_u16 (Z.of_nat (2 ^ k)) x0 0 W 0 (List.map (fun v => (v * 2 ^ 16) / p) W) 0 p = out 16 /\
+     GenLoop.gen_ntt_avx2_u16 (Z.of_nat (2 ^ k)) x0 0 W 0 (List.map (fun v => (v * 2 ^ 16) / p) W) 0 p = out 16) /\
+  (4 * p <= 2 ^ 32 -> List.Forall (fun v => 0 <= v < 2 ^ 32) x0 ->
+     GenLoop.gen_ntt_serial_u32 (Z.of_nat (2 ^ k)) x0 0 W 0 (List.map (fun v => (v * 2 ^ 32) / p) W) 0 p = out 32 /\
+     GenLoop.gen_ntt_sse_u32 (Z.of_nat (2 ^ k)) x0 0 W 0 (List.map (fun v => (v * 2 ^ 32) / p) W) 0 p = out 32 /\
+     GenLoop.gen_ntt_avx2_u32 (Z.of_nat (2 ^ k)) x0 0 W 0 (List.map (fun v => (v * 2 ^ 32) / p) W) 0 p = out 32) /\
+  (4 * p <= 2 ^ 64 -> List.Forall (fun v => 0 <= v < 2 ^ 64) x0 ->
+     GenLoop.gen_ntt_serial_u64 (Z.of_nat (2 ^ k)) x0 0 W 0 (List.map (fun v => (v * 2 ^ 64) / p) W) 0 p = out 64 /\
+     GenLoop.gen_ntt_sse_u64 (Z.of_nat (2 ^ k)) x0 0 W 0 (List.map (fun v => (v * 2 ^ 64) / p) W) 0 p = out 64 /\
+     GenLoop.gen_ntt_avx2_u64 (Z.of_nat (2 ^ k)) x0 0 W 0 (List.map (fun v => (v * 2 ^ 64) / p) W) 0 p = out 64).
+Proof. exact GenLoopSimd.source_loops_all_builds. Qed.
+Print Assumptions C05_source_loops_all_builds.
